@@ -79,6 +79,10 @@ Definition msg_obs_hash (normalize : bool) (v : mvar) : res bytes :=
   | None => Ok (mv_hash v)
   end.
 
+(* the receiver after m.Hash(normalize) *)
+Definition msg_after_hash (normalize : bool) (v : mvar) : mvar :=
+  mkmv (mv_hash v) (option_map (after_hash normalize) (mv_val v)).
+
 End Hist.
 Arguments mktv {S}. Arguments tv_hash {S}. Arguments tv_src {S}. Arguments tv_val {S}.
 Arguments tvar_zero {S}. Arguments tx_assign_res {S}. Arguments tx_assign {S}.
